@@ -24,7 +24,9 @@ Definition code_fixed_F21 := false.
 Definition code_fixed_F22 := false.
 Definition code_fixed_N1 := false.
 Definition code_fixed_N2 := false.
-Definition code_fixes : fixes := mkFix code_fixed_F21 code_fixed_F22 code_fixed_N1 code_fixed_N2.
+Definition code_fixed_N3 := false.
+Definition code_fixes : fixes :=
+  mkFix code_fixed_F21 code_fixed_F22 code_fixed_N1 code_fixed_N2 code_fixed_N3.
 
 (* ---------- float64 bit patterns ----------------------------------------- *)
 
@@ -340,6 +342,7 @@ Definition sstep (s : sstate) (o : op) : sstate :=
   | OMeasure k x h => mkSS (route (s_bks s) (obj_add (s_objs s) 0 k x) k x h) (s_bks s) (s_dead s)
   | ODirect i k x => mkSS (obj_add (s_objs s) i k x) (s_bks s) (s_dead s)
   | OCollect _ | OString _ | OHeader _ | OValues _ | OGet _ => s
+  | OWireErr _ _ _ => s          (* a message that could not be decoded records nothing *)
   | OAverage srcs =>
       let rs := map (fun i => match nth_error (s_objs s) i with Some (Some r) => Some r | _ => None end) srcs in
       let n := match all_some rs with Some l => union_recs l | None => None end in
